@@ -1,9 +1,10 @@
 (* Entry points of the extracted model: the whole request/reply interpretation lives here, in Coq.
    A request is a function name and a list of generic arguments; the reply is the canonical text
    (bytes) the harness compares with the implementation's view.  Definitions only. *)
-Require Import AS.Base.Prelude AS.Base.Hex AS.Base.Dec AS.Base.Crc AS.Base.Exchange AS.Gen.Extracted
-  AS.Model.DeviceTools AS.Model.ScheduleTools AS.Model.Remotes AS.Model.Api AS.Model.ScheduleParser
-  AS.Model.Bridge AS.Model.Lifecycle AS.Spec.Sign.
+Require Import AS.Base.Prelude AS.Base.Hex AS.Base.Dec AS.Base.Crc AS.Base.Exchange AS.Base.Utf8 AS.Base.Float AS.Gen.Extracted
+  AS.Model.DeviceTools AS.Model.ScheduleTools AS.Model.Remotes AS.Model.Messages AS.Model.Api AS.Model.NextRun AS.Model.ScheduleParser
+  AS.Model.Clock AS.Model.Bridge AS.Model.Lifecycle AS.Model.Ops
+  AS.Spec.Sign AS.Spec.Frame AS.Spec.FrameLayout AS.Spec.Encoders AS.Spec.FrameSpec AS.Spec.NextRun AS.Spec.Remote.
 Local Open Scope string_scope.
 Local Open Scope list_scope.
 
@@ -16,11 +17,18 @@ Definition gnat (a : arg) : nat := Z.to_nat (gz a).
 Definition gbool (a : arg) : bool := negb (Z.eqb (gz a) 0).
 Definition gl (a : arg) : list arg := match a with AL l => l | _ => [] end.
 Definition glb (a : arg) : list bytes := map gb (gl a).
+Definition glnat (a : arg) : list nat := map gnat (gl a).
+Definition nth_arg (l : list arg) (i : nat) : arg := nth i l (AB []).
 
 Definition str_of (b : bytes) : string := string_of_list_ascii (map ascii_of_N b).
 Definition is_fn (f : bytes) (s : string) : bool := if bytes_eq_dec f (s2l s) then true else false.
 Definition raised : bytes := s2l "raised".
 Definition show_res (r : result bytes) : bytes := match r with Ok b => s2l "ok " ++ b | Exc _ => raised end.
+Definition show_res_cls (r : result bytes) : bytes :=
+  match r with Ok b => s2l "ok " ++ b | Exc e => s2l "exc:" ++ s2l (exn_name e) end.
+(* tri-state: 0 = omitted, 1 = false/OFF, 2 = true/ON *)
+Definition opt_bool (a : arg) : option bool := match gz a with 0%Z => None | 1%Z => Some false | _ => Some true end.
+Definition opt_str (a : arg) : option string := match gb a with [] => None | b => Some (str_of b) end.
 
 (* ---- C04 ---- *)
 Definition e_sign (p : bytes) : bytes := show_res (sign_packet_with_crc_key p).
@@ -46,16 +54,265 @@ Definition e_duration_spec (st en : bytes) : bytes :=
   | _, _ => s2l "-"
   end.
 
-Definition dispatch (f : bytes) (a : list arg) : option bytes :=
-  match a with
-  | [x] =>
-      if is_fn f "sign" then Some (e_sign (gb x))
-      else if is_fn f "sign_spec" then Some (e_sign_spec (gb x))
-      else None
-  | [x; y] =>
-      if is_fn f "crc" then Some (e_crc (gn x) (gb y))
-      else if is_fn f "duration" then Some (e_duration (gb x) (gb y))
-      else if is_fn f "duration_spec" then Some (e_duration_spec (gb x) (gb y))
-      else None
+(* ---- operations (C01 C02 C03 C09 C16) ---- *)
+Definition mk_waves (a : arg) : list wave :=
+  map (fun w => let l := glb w in {| w_key := nth 0 l []; w_para := nth 1 l []; w_hex := nth 2 l [] |}) (gl a).
+Definition mk_remote (rid onoff waves : arg) : remote :=
+  make_remote {| ir_id := gb rid; ir_onoff := gz onoff; ir_waves := mk_waves waves |}.
+
+(* op kind and its arguments: a b (bytes) z1 z2 (integers) days (list) *)
+Definition mk_op (kind : N) (x : list arg) : option op :=
+  match kind with
+  | 1 => Some (OControl (gbool (nth_arg x 0)) (gz (nth_arg x 1)))
+  | 2 => Some (OAutoShutdown (gz (nth_arg x 0)))
+  | 3 => Some (OSetName (gb (nth_arg x 0)))
+  | 4 => Some OGetSchedules
+  | 5 => Some (ODelete (gb (nth_arg x 0)))
+  | 6 => Some (OCreate (gz (nth_arg x 0)) (gb (nth_arg x 1)) (gb (nth_arg x 2)) (glnat (nth_arg x 3)))
+  | 7 => Some OStop
+  | 8 => Some (OSetPosition (gn (nth_arg x 0)))
+  | 9 => Some OGetShutterState
+  | 10 => Some OGetBreezeState
+  | 11 => Some OGetState
+  | 12 => Some (OBreeze (mk_remote (nth_arg x 0) (nth_arg x 1) (nth_arg x 2)) (opt_bool (nth_arg x 3)) (opt_str (nth_arg x 4))
+                        (gz (nth_arg x 5)) (opt_str (nth_arg x 6)) (opt_bool (nth_arg x 7)) (gbool (nth_arg x 8)))
   | _ => None
+  end%N.
+
+(* op <kind> <id-hex-text> <key-hex-text> <now> [op args] [replies] *)
+Definition e_op (kind : N) (id key : bytes) (now : N) (x : list arg) (replies : list bytes) : option bytes :=
+  match mk_op kind x with
+  | Some o => Some (exchange_text {| device_id := id; device_key := key |} now o replies)
+  | None => None
   end.
+
+(* Spec: the frame the operation must write after the login (C02), "raise", or "-" (unspecified) *)
+Definition e_spec_frame (kind : N) (idb session : bytes) (now : N) (x : list arg) : option bytes :=
+  let h := hdr_args session now idb in
+  match kind with
+  | 1 => Some (show_verdict (spec_control h (gbool (nth_arg x 0)) (gz (nth_arg x 1))))
+  | 2 => Some (show_verdict (spec_auto_shutdown h (gz (nth_arg x 0))))
+  | 3 => Some (show_verdict (spec_set_name h (gb (nth_arg x 0))))
+  | 4 => Some (show_verdict (frame_of L_get_schedules h))
+  | 5 => Some (show_verdict (spec_delete h (gb (nth_arg x 0))))
+  | 6 => Some (show_verdict (spec_create h (gz (nth_arg x 0)) (gb (nth_arg x 1)) (gb (nth_arg x 2)) (glnat (nth_arg x 3))))
+  | 7 => Some (show_verdict (frame_of L_runner_stop h))
+  | 8 => Some (show_verdict (spec_set_position h (gn (nth_arg x 0))))
+  | 9 | 10 => Some (show_verdict (frame_of L_get_state2 h))
+  | 11 => Some (show_verdict (frame_of L_get_state1 h))
+  | 13 => Some (show_verdict (spec_breeze_status h (gbool (nth_arg x 0)) (gn (nth_arg x 1)) (gn (nth_arg x 2)) (gn (nth_arg x 3)) (gbool (nth_arg x 4))))
+  | 14 => Some (show_verdict (spec_breeze_command h (gb (nth_arg x 0))))
+  | _ => None
+  end%N.
+Definition e_spec_login (type2 : bool) (idb keyb : bytes) (now : N) : bytes := show_verdict (spec_login type2 idb keyb now).
+Definition e_frame_ok (f : bytes) : bytes := s2l (if frame_okb f then "ok" else "bad").
+Definition e_c03 (type2 : bool) (idb keyb : bytes) (now : N) (reply0 : bytes) (minc maxc : nat) (frames : list bytes) : bytes :=
+  c03_check type2 idb keyb now reply0 minc maxc frames.
+
+(* ---- C05 C06 C07 ---- *)
+Definition e_bcast (m : bytes) : bytes := parse_datagram_show false false m.
+Definition mk_bdesc (x : list arg) : bdesc :=
+  {| b_type := str_of (gb (nth_arg x 0)); b_on := gbool (nth_arg x 1); b_id := gb (nth_arg x 2); b_key := gn (nth_arg x 3);
+     b_name := gb (nth_arg x 4); b_ip := gb (nth_arg x 5); b_mac := gb (nth_arg x 6); b_power := gn (nth_arg x 7);
+     b_remaining := gn (nth_arg x 8); b_auto := gn (nth_arg x 9); b_position := gn (nth_arg x 10);
+     b_direction := str_of (gb (nth_arg x 11)); b_mode := str_of (gb (nth_arg x 12)); b_temp10 := gn (nth_arg x 13);
+     b_target := gn (nth_arg x 14); b_fan := str_of (gb (nth_arg x 15)); b_swing := gbool (nth_arg x 16);
+     b_remote := gb (nth_arg x 17) |}.
+(* Spec encoder and the device the callback must receive: "<datagram hex>|<expected text>" *)
+Definition e_bcast_encode (x : list arg) (filler : bytes) : bytes :=
+  let d := mk_bdesc x in
+  match encode_bcast d filler with
+  | Some m => hexlify m ++ [59%N] ++ expected_bcast d
+  | None => s2l "-"
+  end.
+Definition e_gate_spec (m : bytes) : bytes :=
+  s2l (if (match m with 254%N :: 240%N :: _ => true | _ => false end
+           && ((length m =? 165) || (length m =? 168) || (length m =? 159))%nat)%bool then "gate" else "ignored").
+(* events: [[port, datagram]...]; raises: indices of callback invocations that raise *)
+Definition e_dispatch (events : list arg) (raising : list nat) : bytes :=
+  let evs := map (fun e => (gnat (nth_arg (gl e) 0), gb (nth_arg (gl e) 1))) events in
+  let s := loop_run false false (fun k => existsb (Nat.eqb k) raising) evs in
+  concat (map (fun '(p, d) => str_N (N.of_nat p) ++ [58%N] ++ show_outcome (Delivered d) ++ [10%N]) (calls s))
+  ++ s2l "handler=" ++ str_N (N.of_nat (handler_calls s)).
+
+(* ---- C08 ---- *)
+Definition e_parse_state (kind : N) (resp : bytes) : bytes :=
+  match kind with
+  | 0 => match parse_state_reply resp with Ok s => show_state_fields resp s | Exc e => s2l "exc:" ++ s2l (exn_name e) end
+  | 1 => match parse_shutter_reply resp with Ok s => show_shutter_fields resp s | Exc e => s2l "exc:" ++ s2l (exn_name e) end
+  | 2 => match parse_thermostat_reply resp with Ok s => show_thermostat_fields resp s | Exc e => s2l "exc:" ++ s2l (exn_name e) end
+  | _ => s2l "session:" ++ login_session resp
+  end%N.
+(* Spec encoders of the replies: fields then filler; returns "<reply hex>;<expected text>" *)
+Definition e_reply_encode (kind : N) (x : list arg) (filler : bytes) : bytes :=
+  match kind with
+  | 0 =>
+      let st := gn (nth_arg x 0) in let pw := gn (nth_arg x 1) in let tl := gn (nth_arg x 2) in
+      let ton := gn (nth_arg x 3) in let au := gn (nth_arg x 4) in
+      match cut [75; 1; 8; gnat (nth_arg x 5)]%nat filler with
+      | [f0; f1; f2; f3] =>
+          hexlify (encode_state_reply f0 f1 f2 f3 st pw tl ton au) ++ [59%N] ++ s2l "state:" ++
+          comma [s2l "1"; str_N st; fmt_hhmmss tl; fmt_hhmmss ton; fmt_hhmmss au; str_N pw; str_Z (amps_tenths (Z.of_N pw))]
+      | _ => s2l "-" end
+  | 1 =>
+      let pos := gn (nth_arg x 0) in let dir := str_of (gb (nth_arg x 1)) in
+      match cut [76; 1; gnat (nth_arg x 2)]%nat filler, value_of3 dir shutter_directions with
+      | [f0; f1; f2], Some dv =>
+          hexlify (encode_shutter_reply f0 f1 f2 pos (unhex_str dv)) ++ [59%N] ++ s2l "state:" ++ comma [s2l "1"; str_N pos; s2l dir]
+      | _, _ => s2l "-" end
+  | 2 =>
+      let t10 := gn (nth_arg x 0) in let on := gbool (nth_arg x 1) in let mode := str_of (gb (nth_arg x 2)) in
+      let target := gn (nth_arg x 3) in let fan := str_of (gb (nth_arg x 4)) in let swing := gbool (nth_arg x 5) in
+      let remote := gb (nth_arg x 6) in
+      match cut [76; 2; gnat (nth_arg x 7)]%nat filler, value_of3 mode thermostat_modes, value_of3 fan fan_levels with
+      | [f0; f1; f2], Some mv, Some fv =>
+          hexlify (encode_thermostat_reply f0 f1 f2 t10 (if on then 1 else 0) (match unhex_str mv with [m] => m | _ => 0 end) target
+                     (16 * nib_str fv + (if swing then 1 else 0)) (pad0 8 remote)) ++ [59%N] ++ s2l "state:" ++
+          comma [s2l "1"; s2l (if on then "1" else "0"); s2l mode; s2l fan; str_N t10; str_N target; s2l (if swing then "1" else "0"); hexlify remote]
+      | _, _, _ => s2l "-" end
+  | _ =>
+      match cut [8; gnat (nth_arg x 1)]%nat filler with
+      | [f0; f1] => hexlify (encode_login_reply f0 (gb (nth_arg x 0)) f1) ++ [59%N] ++ s2l "session:" ++ hexlify (gb (nth_arg x 0))
+      | _ => s2l "-" end
+  end%N.
+
+(* ---- zones: default offset and [[at, offset]...] ---- *)
+Definition mk_zone (d : arg) (tr : arg) : zone :=
+  {| z_default := gz d; z_trans := map (fun p => (gz (nth_arg (gl p) 0), gz (nth_arg (gl p) 1))) (gl tr) |}.
+
+(* ---- C10 ---- *)
+Definition e_schedules (z : zone) (now : Z) (message : bytes) : bytes := show_schedules (get_schedules false false z now message).
+(* Spec: whole records; each [id, enabled, mask, state, start, end, [t0..t3]] *)
+Definition e_schedules_encode (hdr : bytes) (recs : list arg) (tail : bytes) : bytes :=
+  hexlify (encode_schedules_reply (take 45 hdr)
+             (map (fun r => let l := gl r in let t := glnat (nth_arg l 6) in
+                            record (gn (nth_arg l 0)) (gn (nth_arg l 1)) (gn (nth_arg l 2)) (gn (nth_arg l 3)) (gn (nth_arg l 4)) (gn (nth_arg l 5))
+                                   (N.of_nat (nth 0 t 0%nat)) (N.of_nat (nth 1 t 0%nat)) (N.of_nat (nth 2 t 0%nat)) (N.of_nat (nth 3 t 0%nat))) recs)
+             (take 4 tail)).
+
+(* ---- C11 ---- *)
+Definition e_clock_encode (z : zone) (now : Z) (s : bytes) : bytes := show_res (time_to_hexadecimal_timestamp_z false z now s).
+Definition e_clock_decode (z : zone) (hex : bytes) : bytes := show_res (hexadecimale_timestamp_to_localtime z hex).
+(* Spec: is t a pre-image of (today, minute m) — "1"/"0"; and the number of pre-images among the zone's offsets *)
+Definition e_clock_check (z : zone) (now : Z) (m : N) (t : Z) : bytes :=
+  let L := (86400 * today z now + 60 * Z.of_N m)%Z in
+  let pre := filter (fun o => (local_secs z (L - o) =? L)%Z) (nodup Z.eq_dec (offsets z)) in
+  s2l (if (local_secs z t =? L)%Z then "1" else "0") ++ [44%N] ++ str_N (N.of_nat (length pre)) ++ [44%N] ++ fmt_hm z (Z.to_N t).
+Definition e_local (z : zone) (t : Z) : bytes :=
+  let '(h, m) := hm_of z t in str_N h ++ [58%N] ++ str_N m ++ [44%N] ++ str_N (N.of_nat (weekday_of z t)) ++ [44%N] ++ str_Z (today z t).
+
+(* ---- C12 ---- *)
+Definition e_weekdays (form : N) (l : list nat) : bytes :=
+  show_res (weekdays_to_hexadecimal (match form with 0%N => ADay (hd 0%nat l) | 1%N => ASet l | _ => ASeq l end)).
+Definition e_bitsum (n : N) : bytes :=
+  match bit_summary_to_days n with Ok l => s2l "ok " ++ concat (map (fun d => str_N (N.of_nat d)) l) | Exc _ => raised end.
+(* Spec: mask = sum of 2^(weekday+1); rejected: empty, duplicates *)
+Definition e_weekdays_spec (form : N) (l : list nat) : bytes :=
+  match form, l with
+  | _, [] => raised
+  | 0%N, d :: _ => s2l "ok " ++ hexbyte (2 ^ (N.of_nat d + 1))
+  | _, _ => if negb (nodup_nat l) then (if (form =? 1)%N then s2l "-" else raised)
+            else s2l "ok " ++ hexbyte (fold_right (fun d a => (2 ^ (N.of_nat d + 1) + a)%N) 0%N l)
+  end.
+Definition e_bitsum_spec (n : N) : bytes :=
+  if ((n <? 2) || (254 <? n))%N%bool then raised
+  else if N.odd n then s2l "-"
+  else s2l "ok " ++ concat (map (fun d => str_N (N.of_nat d)) (filter (fun d => N.testbit n (N.of_nat d + 1)) (seq 0 7))).
+
+(* ---- C13 ---- *)
+Definition e_next_run (z : zone) (now : Z) (start : bytes) (ds : list nat) : bytes :=
+  show_res (pretty_next_run false false z now start ds).
+(* Spec text from local weekday w, local minute c, start minute s, weekday set (Monday = 0) *)
+Definition e_next_run_spec (w : nat) (c s : N) (start : bytes) (wds : list nat) : bytes :=
+  match next_run_spec w (c <? s)%N wds with
+  | Today => s2l "ok Due today at " ++ start
+  | Tomorrow => s2l "ok Due tomorrow at " ++ start
+  | NextDay d => s2l "ok Due next " ++ weekday_value d ++ s2l " at " ++ start
+  | NREx _ => raised
+  end.
+
+(* ---- C15 ---- *)
+Definition e_caps (r : remote) : bytes :=
+  concat (map (fun m => s2l m ++ [44%N]) (r_supported r)) ++ [124%N] ++ str_Z (r_min r) ++ [124%N] ++ str_Z (r_max r)
+  ++ [124%N] ++ s2l (if r_toggle r then "1" else "0") ++ [124%N] ++ s2l (if r_sep r then "1" else "0").
+Definition e_caps_spec (s : irset) : bytes :=
+  let '(sup, mn, mx, tg, sp) := spec_capabilities s in
+  concat (map (fun m => s2l m ++ [44%N]) sup) ++ [124%N] ++ str_Z mn ++ [124%N] ++ str_Z mx
+  ++ [124%N] ++ s2l (if tg then "1" else "0") ++ [124%N] ++ s2l (if sp then "1" else "0").
+Definition show_cmd (r : result (bytes * bytes)) : bytes :=
+  match r with Ok (cmd, len) => s2l "ok " ++ len ++ [124%N] ++ cmd | Exc e => s2l "exc:" ++ s2l (exn_name e) end.
+Definition e_build (r : remote) (x : list arg) : bytes :=
+  show_cmd (build_command false r (gbool (nth_arg x 0)) (str_of (gb (nth_arg x 1))) (gz (nth_arg x 2)) (str_of (gb (nth_arg x 3)))
+              (gbool (nth_arg x 4)) (opt_bool (nth_arg x 5))).
+Definition e_build_spec (s : irset) (x : list arg) : bytes :=
+  show_spec_cmd (spec_build s (gbool (nth_arg x 0)) (str_of (gb (nth_arg x 1))) (gz (nth_arg x 2)) (str_of (gb (nth_arg x 3)))
+                   (gbool (nth_arg x 4)) (opt_bool (nth_arg x 5))).
+Definition e_build_swing (r : remote) (on : bool) : bytes := show_cmd (build_swing_command false r on).
+
+(* ---- C17 / C18 ---- *)
+(* bridge lifecycle: actions coded as [kind, port]: 0 start, 1 stop, 2 occupy, 3 release, 4 send;
+   after every action: running flag, owner of each configured port, observation *)
+Definition e_bridge (ports : list nat) (acts : list arg) : bytes :=
+  let step_show (acc : bstate * bytes) (a : arg) :=
+    let '(s, out) := acc in
+    let k := gn (nth_arg (gl a) 0) in let p := gnat (nth_arg (gl a) 1) in
+    let act := match k with 0%N => AStart | 1%N => AStop | 2%N => AOccupy p | 3%N => ARelease p | _ => ASend p end in
+    let '(s', o) := step false ports s act in
+    (s', out ++ s2l (if running s' then "R" else "r")
+             ++ concat (map (fun q => s2l (match os s' q with Bridge => "B" | Foreign => "F" | Free => "-" end)) ports)
+             ++ s2l (match o with ONone => "." | OStarted => "s" | ORaised => "!" | ODelivered => "d" | ODropped => "x" end)
+             ++ [124%N]) in
+  snd (fold_left step_show acts (init, [])).
+(* TCP client lifecycle: [kind, flag]: 0 connect(listening), 1 disconnect, 2 operation(raises),
+   3 with(listening, body ok), 4 with(listening, body raises) *)
+Definition e_client (acts : list arg) : bytes :=
+  let show (acc : cstate * bytes) (a : arg) :=
+    let '(s, out) := acc in
+    let k := gn (nth_arg (gl a) 0) in let f := gbool (nth_arg (gl a) 1) in
+    let act := match k with 0%N => CConnect f | 1%N => CDisconnect | 2%N => COperation f | 3%N => CWith f false | _ => CWith f true end in
+    let '(s', o) := cstep s act in
+    (s', out ++ s2l (if connected s' then "C" else "c") ++ str_N (N.of_nat (dev_open s')) ++ [44%N]
+             ++ str_N (N.of_nat (dev_eofs s')) ++ s2l (match o with CDone => "." | CRaised => "!" end) ++ [124%N]) in
+  snd (fold_left show acts (cinit, [])).
+
+Definition mk_irset (rid onoff waves : arg) : irset := {| ir_id := gb rid; ir_onoff := gz onoff; ir_waves := mk_waves waves |}.
+
+Definition dispatch (f : bytes) (a : list arg) : option bytes :=
+  let x := nth_arg a in
+  if is_fn f "sign" then Some (e_sign (gb (x 0%nat)))
+  else if is_fn f "sign_spec" then Some (e_sign_spec (gb (x 0%nat)))
+  else if is_fn f "crc" then Some (e_crc (gn (x 0%nat)) (gb (x 1%nat)))
+  else if is_fn f "duration" then Some (e_duration (gb (x 0%nat)) (gb (x 1%nat)))
+  else if is_fn f "duration_spec" then Some (e_duration_spec (gb (x 0%nat)) (gb (x 1%nat)))
+  else if is_fn f "op" then e_op (gn (x 0%nat)) (gb (x 1%nat)) (gb (x 2%nat)) (gn (x 3%nat)) (gl (x 4%nat)) (glb (x 5%nat))
+  else if is_fn f "spec_frame" then e_spec_frame (gn (x 0%nat)) (gb (x 1%nat)) (gb (x 2%nat)) (gn (x 3%nat)) (gl (x 4%nat))
+  else if is_fn f "spec_login" then Some (e_spec_login (gbool (x 0%nat)) (gb (x 1%nat)) (gb (x 2%nat)) (gn (x 3%nat)))
+  else if is_fn f "frame_ok" then Some (e_frame_ok (gb (x 0%nat)))
+  else if is_fn f "c03" then Some (e_c03 (gbool (x 0%nat)) (gb (x 1%nat)) (gb (x 2%nat)) (gn (x 3%nat)) (gb (x 4%nat))
+                                         (gnat (x 5%nat)) (gnat (x 6%nat)) (glb (x 7%nat)))
+  else if is_fn f "bcast" then Some (e_bcast (gb (x 0%nat)))
+  else if is_fn f "bcast_encode" then Some (e_bcast_encode (gl (x 0%nat)) (gb (x 1%nat)))
+  else if is_fn f "gate_spec" then Some (e_gate_spec (gb (x 0%nat)))
+  else if is_fn f "dispatch" then Some (e_dispatch (gl (x 0%nat)) (glnat (x 1%nat)))
+  else if is_fn f "parse_state" then Some (e_parse_state (gn (x 0%nat)) (gb (x 1%nat)))
+  else if is_fn f "reply_encode" then Some (e_reply_encode (gn (x 0%nat)) (gl (x 1%nat)) (gb (x 2%nat)))
+  else if is_fn f "schedules" then Some (e_schedules (mk_zone (x 0%nat) (x 1%nat)) (gz (x 2%nat)) (gb (x 3%nat)))
+  else if is_fn f "schedules_encode" then Some (e_schedules_encode (gb (x 0%nat)) (gl (x 1%nat)) (gb (x 2%nat)))
+  else if is_fn f "clock_encode" then Some (e_clock_encode (mk_zone (x 0%nat) (x 1%nat)) (gz (x 2%nat)) (gb (x 3%nat)))
+  else if is_fn f "clock_decode" then Some (e_clock_decode (mk_zone (x 0%nat) (x 1%nat)) (gb (x 2%nat)))
+  else if is_fn f "clock_check" then Some (e_clock_check (mk_zone (x 0%nat) (x 1%nat)) (gz (x 2%nat)) (gn (x 3%nat)) (gz (x 4%nat)))
+  else if is_fn f "local" then Some (e_local (mk_zone (x 0%nat) (x 1%nat)) (gz (x 2%nat)))
+  else if is_fn f "weekdays" then Some (e_weekdays (gn (x 0%nat)) (glnat (x 1%nat)))
+  else if is_fn f "weekdays_spec" then Some (e_weekdays_spec (gn (x 0%nat)) (glnat (x 1%nat)))
+  else if is_fn f "bitsum" then Some (e_bitsum (gn (x 0%nat)))
+  else if is_fn f "bitsum_spec" then Some (e_bitsum_spec (gn (x 0%nat)))
+  else if is_fn f "next_run" then Some (e_next_run (mk_zone (x 0%nat) (x 1%nat)) (gz (x 2%nat)) (gb (x 3%nat)) (glnat (x 4%nat)))
+  else if is_fn f "next_run_spec" then Some (e_next_run_spec (gnat (x 0%nat)) (gn (x 1%nat)) (gn (x 2%nat)) (gb (x 3%nat)) (glnat (x 4%nat)))
+  else if is_fn f "caps" then Some (e_caps (mk_remote (x 0%nat) (x 1%nat) (x 2%nat)))
+  else if is_fn f "caps_spec" then Some (e_caps_spec (mk_irset (x 0%nat) (x 1%nat) (x 2%nat)))
+  else if is_fn f "build" then Some (e_build (mk_remote (x 0%nat) (x 1%nat) (x 2%nat)) (gl (x 3%nat)))
+  else if is_fn f "build_spec" then Some (e_build_spec (mk_irset (x 0%nat) (x 1%nat) (x 2%nat)) (gl (x 3%nat)))
+  else if is_fn f "build_swing" then Some (e_build_swing (mk_remote (x 0%nat) (x 1%nat) (x 2%nat)) (gbool (x 3%nat)))
+  else if is_fn f "bridge" then Some (e_bridge (glnat (x 0%nat)) (gl (x 1%nat)))
+  else if is_fn f "client" then Some (e_client (gl (x 0%nat)))
+  else None.
